@@ -200,6 +200,50 @@ var c12Specs = func() []string {
 		add(b)
 	}
 	out = append(out, "patient", "STRING", "humanName", "Foo", "FHIR.Foo", "Bar.Integer", "System.Integer.x", "FHIR.FHIR.string", "Patient.Contact", "Contact", "Repeat", "system.String", "fhir.string")
+	// generated misspellings of valid names (type names are case-sensitive identifiers): every
+	// single-letter case flip, snake_case, a leading/trailing underscore, all lower, all upper,
+	// an upper-cased tail - kept only when the reference resolver calls them invalid
+	seen := map[string]bool{}
+	for _, o := range out {
+		seen[o] = true
+	}
+	flip := func(r byte) byte {
+		switch {
+		case r >= 'a' && r <= 'z':
+			return r - 32
+		case r >= 'A' && r <= 'Z':
+			return r + 32
+		}
+		return r
+	}
+	names := append(append([]string{}, primitiveNames...), "Patient", "HumanName", "Quantity", "Integer", "String", "DateTime", "Boolean", "Element", "BackboneElement", "DomainResource")
+	for _, n := range names {
+		var miss []string
+		for i := 0; i < len(n); i++ {
+			b := []byte(n)
+			b[i] = flip(b[i])
+			miss = append(miss, string(b))
+		}
+		var snake strings.Builder
+		for i := 0; i < len(n); i++ {
+			if i > 0 && n[i] >= 'A' && n[i] <= 'Z' {
+				snake.WriteByte('_')
+			}
+			snake.WriteByte(n[i] | 0x20)
+		}
+		miss = append(miss, snake.String(), n+"_", "_"+n, strings.ToLower(n), strings.ToUpper(n), n[:len(n)/2]+strings.ToUpper(n[len(n)/2:]))
+		if len(n) > 3 {
+			miss = append(miss, n[:1]+strings.ToUpper(n[1:3])+n[3:])
+		}
+		for _, m := range miss {
+			for _, q := range []string{m, "FHIR." + m} {
+				if !seen[q] && !resolveSpec(q).Valid {
+					seen[q] = true
+					out = append(out, q)
+				}
+			}
+		}
+	}
 	return out
 }()
 
